@@ -103,7 +103,7 @@ def make_judges(ctx):
 
 
 def floors(tier):
-    return [('op', op, sg, m) for op in ('truediv', 'floordiv', 'mod') for sg in ('ss', 'su', 'us', 'uu') for m in ('raw', 'repr')]
+    return [('op', op, sg, m) for op in ('truediv', 'floordiv', 'mod') for sg in ('ss', 'su', 'us', 'uu') for m in ('raw', 'repr')] + [('special', 'multiple'), ('special', 'widealign')]
 
 
 def fmts(wmax):
@@ -160,15 +160,38 @@ def run_case(case, ctx):
         _try(lambda: x % y)
         return
     rng = ctx.rng_for(k, case['i'])
+    # independent digits of the case index: method, rounding, rank, history, special class
+    j = case['i']
+    method = ('raw', 'repr')[j % 2]
+    j //= 2
+    r = G.ROUNDINGS[j % 5]
+    j //= 5
+    scalar = j % 3 == 0
+    j //= 3
+    hist = j % 4 == 1
+    j //= 4
+    special = ('', 'multiple', 'widealign', '')[j % 4]
     for _ in range(50):
         sx, sy = rng.random() < 0.5, rng.random() < 0.5
         wx, wy = rng.randint(1, 40), rng.randint(1, 40)
         if rng.random() < 0.5:
             wy = rng.randint(1, 6)
         fx, fy = rng.randint(0, wx), rng.randint(0, wy)
+        if special == 'widealign':
+            # a coarse operand with many integer bits against a fine one with many fraction bits: the aligned codes need about 64 bits
+            # although every result word stays short (the judge skips the operations whose own result exceeds 53 bits)
+            sx = sy = rng.random() < 0.3
+            wx, wy = rng.randint(24, 40), rng.randint(24, 40)
+            fx, fy = rng.randint(0, 3), wy - rng.randint(0, 3)
+            if rng.random() < 0.5:
+                (wx, fx), (wy, fy) = (wy, fy), (wx, fx)
+        if special == 'multiple':
+            wy = rng.randint(6, 12)
+            wx = rng.randint(wy, 24)
+            fx = fy = rng.choice([0, 0, 1, 3])
         X, Y = (sx, wx, fx), (sy, wy, fy)
         ws = [R.fmt_truediv(X, Y)[1], R.fmt_floordiv(X, Y)[1], R.fmt_mod(X, Y)[1]]
-        if max(ws) <= 53 and min(ws) >= 1:
+        if (max(ws) <= 53 or (special == 'widealign' and ws[2] <= 53)) and min(ws) >= 1:
             break
     else:
         return
@@ -184,16 +207,31 @@ def run_case(case, ctx):
             if c != 0 and loy <= c <= hiy:
                 return c
         return 1
-    method = ('raw', 'repr')[case['i'] % 2]
-    r = G.ROUNDINGS[case['i'] % 5]
-    if case['i'] % 3 == 0:
+    if special == 'multiple':
+        # dividends that are exact integer multiples of the divisor (the quotient is representable: it must come out exactly, in every rounding
+        # mode and by both methods)
+        def pair():
+            d = vy()
+            kmax = max(1, min(abs(hix), abs(lox)) // max(1, abs(d)))
+            m = rng.randint(1, kmax) * (rng.choice([1, -1]) if sx else 1)
+            c = m * d
+            return (c if lox <= c <= hix else d), d
+        if scalar:
+            cx, cy = pair()
+        else:
+            ps = [pair() for _ in range(rng.randint(2, 4))]
+            cx, cy = np.array([p_[0] for p_ in ps]), np.array([p_[1] for p_ in ps])
+        ctx.floor_hit(('special', 'multiple'))
+    elif scalar:
         cx, cy = vx(), vy()
     else:
         n = rng.randint(2, 4)
         cx, cy = np.array([vx() for _ in range(n)]), np.array([vy() for _ in range(n)])
+    if special == 'widealign':
+        ctx.floor_hit(('special', 'widealign'))
     x = Fxp(cx, sx, wx, fx, raw=True, op_method=method, rounding=r)
     y = Fxp(cy, sy, wy, fy, raw=True, op_method=method)
-    if case['i'] % 4 == 1:
+    if hist:
         x = G.historied(Fxp, x, rng)[0]
         y = G.historied(Fxp, y, rng)[0]
     q = _try(lambda: x / y)
